@@ -36,6 +36,7 @@ type Scenario struct {
 	NoPauseHandler   bool         `json:"no_pause_handler,omitempty"`   // the server's handler has no OnPause: PAUSE is answered 501
 	BackChannel      bool         `json:"back_channel,omitempty"`       // the stream has one more media, a back channel (client → server inside a PLAY session)
 	Bursts           [][2]int     `json:"bursts,omitempty"`             // [start, length): writes made back to back, without any pacing (several packets of a format are queued at once)
+	Churn            *ChurnSpec   `json:"churn,omitempty"`              // not a scripted scenario: concurrent writers and joining / leaving readers, run in a child process (churn.go)
 	PubNoSAVP        bool         `json:"pub_no_savp,omitempty"`        // rtsps record over TCP: the announced medias keep profile AVP (plain RTP inside TLS); default: SAVP, SRTP inside TLS
 	NoPlayHandler    bool         `json:"no_play_handler,omitempty"`    // … and no OnPlay either (publish-only server)
 	PubSteps         []Step       `json:"pub_steps,omitempty"`          // relay: what the publisher does before write At: pause-refused
